@@ -472,10 +472,52 @@ def rule_writers(ck, rid="C04.R8"):
     ck.floor(rid, n, 4, "writers of pilot_signals")
 
 
+
+def rule_float_storage(ck, rid="C04.R11", attrs=("pilot_signals",)):
+    """`equals the value of the latest submitted schedule`: the matrix the pilots are kept in holds them as given - every allocation that is
+    stored into it (Simulator.__init__, the growth helper, restore) is a floating-point array: no integer / boolean dtype that would
+    truncate 7.5 A to 7 A on assignment"""
+    from ..rules import who_writes
+    repo = ck.repo
+    n = 0
+    INT_DT = {"int", "bool", "np.int64", "np.int32", "np.int_", "np.intc", "np.uint8", "np.bool_", "'int'", "'int64'", "'i'", "'i8'", "'bool'", "np.int16", "np.uint32", "np.uint64"}
+    fns = {}
+    for a_ in attrs:
+        for f, kind, path, node in who_writes(repo, a_):
+            if "/tests/" in f.module or kind != "assign":
+                continue
+            fns[(f.qual, f.module)] = f
+    helper = repo.fn("_increase_width", optional=True)
+    if helper is not None:
+        fns[(helper.qual, helper.module)] = helper
+    for f in fns.values():
+        fl = flow_of(f)
+        for nd in fl.cfg.nodes:
+            for e in fl.cfg.node_exprs(nd):
+                for c in [e] + list(walk_local(e)):
+                    if not (isinstance(c, ast.Call) and call_name(c) in ("zeros", "empty", "ones", "full", "zeros_like", "empty_like", "full_like", "astype", "array", "asarray")):
+                        continue
+                    dt = next((k.value for k in c.keywords if k.arg == "dtype"), None)
+                    if call_name(c) == "astype" and c.args:
+                        dt = c.args[0]
+                    if call_name(c) in ("zeros", "empty", "ones") and len(c.args) >= 2:
+                        dt = c.args[1]
+                    # only allocations that reach one of the matrices (or the growth helper's result)
+                    reaches = f is helper or any(isinstance(t, ast.Attribute) and t.attr in attrs for st in ast.walk(f.node) if isinstance(st, ast.Assign)
+                                                 for t in st.targets if any(x is c for x in ast.walk(st.value)))
+                    if not reaches:
+                        continue
+                    n += 1
+                    bad = dt is not None and canon(dt) in INT_DT
+                    ck.require(not bad, rid, f, c, ok="floating-point storage", bad=f"`{src(c, 70)}` allocates the matrix with dtype {canon(dt) if dt is not None else ''}: a fractional "
+                               "pilot written into it is truncated, the stored value is no longer the scheduled one", sink=f"dtype:{f.qual}", positive=True)
+    ck.floor(rid, n, 2, "allocations reaching the recorded matrices")
+
 def run(ck):
     ck.attempt(rule_writers)
     ck.attempt(rule_update_schedules)
     ck.attempt(rule_increase_width)
+    ck.attempt(rule_float_storage)
     ck.attempt(rule_none)
     ck.attempt(rule_broadcast)
     # "the pilot applied to each station is the scheduled value": what update_pilots sends is latched by every EVSE, occupied or not
@@ -485,3 +527,8 @@ def run(ck):
     # matrices are grown (content-preserving) to cover column t in every period (shared with C01)
     from .c01 import rule_loop
     ck.attempt(rule_loop, rid="C04.R10")
+    # "the latest submitted schedule": what is handed to _update_schedules is the mapping the scheduler returned, entry for entry
+    # (flow rule of C05 on the period loop; reports under its C05 ids)
+    from .c05 import rule_order
+    ck.attempt(rule_order)
+
